@@ -83,11 +83,23 @@ func PrintJobResult(w io.Writer, r *sym.JobResult, detail bool) {
 			c := byID[id]
 			fmt.Fprintf(w, "   %-28s proved=%d violated=%d unknown=%d  solver_ms=%d\n", id, c[0], c[1], c[2], msByID[id])
 		}
+		kn := map[string]int{}
+		for _, o := range r.Obls {
+			if o.Known != "" {
+				kn[o.Known+" "+o.ID]++
+			}
+		}
+		for k, v := range kn {
+			fmt.Fprintf(w, "   known-finding %s: %d\n", k, v)
+		}
 		for k, v := range r.Reached {
 			fmt.Fprintf(w, "   reach %-22s %d\n", k, v)
 		}
 		n := 0
 		for _, o := range r.Obls {
+			if o.Status == "violated" && o.Known != "" {
+				continue
+			}
 			if o.Status == "violated" && n < 5 {
 				fmt.Fprintf(w, "   VIOLATED %s %s model=%v\n", o.ID, o.Where, o.Model)
 				n++
